@@ -282,9 +282,20 @@ def run_one(L, s):
             sq.env["VERIF_CRASH_AT"] = str(at)
             if s.get("partial"):
                 sq.env["VERIF_CRASH_PARTIAL"] = str(s["partial"])
-        sq.start(wait=40)
-        if not it.rebuilt():
-            return "SETUP-FAIL first start"
+        early = False
+        try:
+            sq.start(wait=40)
+        except lab.LabError:
+            # ufs writes swap.state while starting: a small crash point kills squid before it listens
+            if at and sq.proc is not None and sq.proc.poll() == 137:
+                early = True
+            else:
+                return "SETUP-FAIL first start"
+        if not early and not it.rebuilt():
+            if at and sq.proc is not None and sq.proc.poll() == 137:
+                early = True
+            else:
+                return "SETUP-FAIL first start"
         objs = objects_of(s)
         urls = sorted(set(op[1] for op in s["ops"]))
         for o in objs:
@@ -293,8 +304,8 @@ def run_one(L, s):
             o["body"] = body_of(o["size"], 1000 * sid + o["id"])
         k = 0
         expected = 0
-        crashed = False
-        for op in s["ops"]:
+        crashed = early
+        for op in ([] if early else s["ops"]):
             u = op[1]
             url = _url(org, sid, u)
             if op[0] in ("get", "reload"):
